@@ -49,6 +49,19 @@ def main(argv=None):
         if rep.get("failures"):
             f = rep["failures"][0]
             ck.fail("proxy_headers.proxy_headers_middleware/bounded:%s" % routine, "case:" + repr(f)[:100], "bounded stand-in: %s" % (f,), replay={"case": f, "label": "bounded"}, reproduced=True)
+    # the values the property lists as uninterpretable must each give 400 (bounded: a fixed table on the real middleware)
+    rep = ck.native("refusal_check", {}, timeout=600)
+    ck.bounded.append({"label": "bounded", "what": "uninterpretable proxy header values (pair without '=', padded tokens, bad quoting, unsupported scheme, several values, empty host) yield 400",
+                       "bound": "fixed table of %s values in replay/C16_replay.py" % rep.get("total"), "evaluations": rep.get("total", 0), "failures": rep.get("failures", rep)})
+    seen = set()
+    for f in rep.get("failures", []):
+        key = "class:" + f["class"]
+        if key in seen:
+            continue
+        seen.add(key)
+        ck.fail("proxy_headers.proxy_headers_middleware/bounded:refusal_check", key,
+                "bounded stand-in: %s header %r (%s) answered %s instead of 400" % (f["kind"], f["value"], f["class"], f["status"]),
+                replay={"case": f, "label": "bounded"}, reproduced=True)
     ck.trusted.extend(["builtin string model (split/strip/partition/rsplit/lower/join), regex gates of undquote as predicates",
                        "trusted_proxy_headers is any subset of the six known kinds (Adjustments validates the names); trusted_proxy_count >= 1",
                        "cut points at the top-level blocks of parse_proxy_headers; the value-flow invariants carried across them are proved at each cut",
